@@ -401,6 +401,7 @@ fn main() {
         Some("race") => hv::drivers::cmd_race(&args),
         Some("scan") => hv::drivers::cmd_scan(&args),
         Some("call") => hv::drivers::cmd_call(&args),
+        Some("config") => hv::drivers::cmd_config(&args),
         _ => {
             eprintln!("usage: driver ops|work|feed|session|race|scan ...");
             std::process::exit(2);
